@@ -41,6 +41,20 @@ def spec(shape):
     raise AssertionError(shape)
 
 
+def decoy_instance(shape):
+    """an instance of ANOTHER NamedTuple class that uses the same field names as spec(shape) at rotated
+    positions (position j is called f<(j+1) mod n>): two user types that share field names"""
+    assert shape[0] == "ntuple"
+    key = "decoy" + repr(shape)
+    if key not in _NT_CACHE:
+        n = len(shape) - 1
+        ann = {}
+        for j, s in enumerate(shape[1:]):
+            ann["f%d" % ((j + 1) % n)] = abi.Field[spec(s).annotation_type()]
+        _NT_CACHE[key] = type("NTD%d" % len(_NT_CACHE), (abi.NamedTuple,), {"__annotations__": ann})
+    return _NT_CACHE[key]()
+
+
 def sig(shape):
     """ARC-4 signature string written independently of PyTeal"""
     if isinstance(shape, str):
